@@ -439,6 +439,16 @@ func (dsc *dataStoreCommand) keys(pattern string) (list []string) {
 	return
 }
 
+// parses a stored counter the way redis does: the canonical decimal form only
+// (no leading '+', no leading zeros, no "-0", no surrounding spaces)
+func parseStrictInt64(str string) (value int64, valid bool) {
+	value, err := strconv.ParseInt(str, 10, 64)
+	if err != nil || strconv.FormatInt(value, 10) != str {
+		return 0, false
+	}
+	return value, true
+}
+
 func (dsc *dataStoreCommand) addInt(keyName string, delta int64) (value int64, exists valueExists) {
 	dsc.lock()
 	defer dsc.unlock()
@@ -454,9 +464,9 @@ func (dsc *dataStoreCommand) addInt(keyName string, delta int64) (value int64, e
 			return
 		}
 
-		var err error
-		value, err = strconv.ParseInt(string(strBytes), 10, 64)
-		if err != nil {
+		var valid bool
+		value, valid = parseStrictInt64(string(strBytes))
+		if !valid {
 			exists = VALUE_WRONG_FORMAT
 			return
 		}
@@ -2021,9 +2031,8 @@ func (dsc *dataStoreCommand) fieldAddInt(keyName, fieldName string, delta int64)
 
 	oldVal, exists := m.get(fieldName)
 	if exists {
-		var err error
-		oldInt, err := strconv.ParseInt(oldVal.(string), 10, 64)
-		if err != nil {
+		oldInt, valid := parseStrictInt64(oldVal.(string))
+		if !valid {
 			ve = VALUE_WRONG_FORMAT
 			return
 		}
